@@ -205,7 +205,7 @@ def run(ctx, chk):
             if any(a["adt"].startswith(t) or a["owner"].startswith(t) for t in closure_types):
                 chk.fail("S4", "attr:%s.%s:skip" % (a["adt"], a["owner"]), a["span"], "serde attribute %s removes data from the checksummed serialization" % a["text"])
     # ---------------- S5
-    vs = [bd for bd in db.bodies.values() if bd.name == "visit_str" and "::PriceLevelSnapshot as " in bd.defp]
+    vs, vm_found = db.serde_visitors("PriceLevelSnapshot")
     chk.require(len(vs) == 1, "S5", "snapshot-field-visitor", "", "field visitor not found (%d)" % len(vs))
     if vs:
         w = ctx.walker(max_depth=3)
@@ -222,7 +222,7 @@ def run(ctx, chk):
                 errs += 1
                 chk.require("unknown_field" in repr(v), "S5", vs[0].defp + ":unknown-rejected", vs[0].span, "the default arm returns %s" % short(v)[:120], describe_path(r))
         chk.require(oks == len(sfields) and errs >= 1, "S5", vs[0].defp + ":arms", vs[0].span, "%d accepting arms for %d fields, %d rejecting" % (oks, len(sfields), errs))
-    vm = [bd for bd in db.bodies.values() if bd.name == "visit_map" and "::PriceLevelSnapshot as " in bd.defp]
+    vm = vm_found
     chk.require(len(vm) == 1, "S5", "snapshot-visitor", "", "visit_map not found (%d)" % len(vm))
     if vm:
         w = ctx.walker(max_depth=2)
